@@ -402,21 +402,17 @@ def o_to_pgl(A, bilinear_form=np.diag([-1, 1, 1])):
 
     A_d = conj_i @ A @ conj
 
-    a = np.sqrt(np.abs(A_d[0, 0]))
-    b = np.sqrt(np.abs(A_d[0, 2]))
-    c = np.sqrt(np.abs(A_d[2, 0]))
-    d = np.sqrt(np.abs(A_d[2, 2]))
+    a = np.sqrt(np.abs(A_d[..., 0, 0]))
+    b = np.sqrt(np.abs(A_d[..., 0, 2]))
+    c = np.sqrt(np.abs(A_d[..., 2, 0]))
+    d = np.sqrt(np.abs(A_d[..., 2, 2]))
 
-    # TODO: make this vector-safe, right now the docstring is a lie
-    if A_d[0][1] < 0:
-        b = b * -1
-    if A_d[1][0] < 0:
-        c = c * -1
-    if A_d[1][2] * A_d[0][1] < 0:
-        d = d * -1
+    b = np.where(A_d[..., 0, 1] < 0, -b, b)
+    c = np.where(A_d[..., 1, 0] < 0, -c, c)
+    d = np.where(A_d[..., 1, 2] * A_d[..., 0, 1] < 0, -d, d)
 
-    return np.array([[a, b],
-                     [c, d]])
+    return np.stack([np.stack([a, b], axis=-1),
+                     np.stack([c, d], axis=-1)], axis=-2)
 
 def sl2_to_so21(A):
     r"""Return the image of an element of $\mathrm{SL}(2, \mathbb{R})$
